@@ -61,7 +61,7 @@ package boltz
 //@   ensures result == scanner.current
 
 //@ func (*uniqueIndexScanner).nextUnpaged
-//@   props C02
+//@   props C02 C15
 //@   requires scanner.cursor != nil && scanner.rowCursor != nil && scanner.filter != nil && scanner.store != nil
 //@   requires 0 <= curPos[scanner.cursor] && curPos[scanner.cursor] <= curLen[scanner.cursor]
 //@   modifies scanner.current, curPos[scanner.cursor], scanner.rowCursor.currentRow, symRow[scanner.rowCursor]
@@ -78,7 +78,7 @@ package boltz
 // page(S, m, off, lim): count is the number of matching elements; the result holds the
 // matching elements number off, off+1, ... (at most lim of them), in sequence order.
 //@ func (*uniqueIndexScanner).ScanCursor
-//@   props C02
+//@   props C02 C15
 //@   requires query != nil && scanner.store != nil
 //@   requires scanner.offset == 0 && scanner.count == 0 && scanner.collected == 0
 //@   modifies scanner.*, qHasSkip[query], qSkip[query], qHasLimit[query], qLimit[query], curPos, symRow, any rowCursorImpl.currentRow
@@ -489,7 +489,7 @@ package boltz
 // Next(): skips non-matching elements; matching elements are consumed by the offset until it reaches
 // targetOffset, the next one is produced; nothing is produced once targetLimit values have been.
 //@ func (*uniqueIndexScanner).Next
-//@   props C02 C14
+//@   props C02 C14 C15
 //@   requires scanner.cursor != nil && scanner.rowCursor != nil && scanner.filter != nil && scanner.store != nil
 //@   requires 0 <= curPos[scanner.cursor] && curPos[scanner.cursor] <= curLen[scanner.cursor]
 //@   requires 0 <= scanner.offset && scanner.offset <= max(scanner.targetOffset, 0) && 0 <= scanner.collected
